@@ -578,7 +578,7 @@ func TestC08_RecoveryE2E(t *testing.T) {
 		"rooms == rooms at the loss, replayed tokens == logged broadcasts after the offset addressed to those rooms, in order, each once, middleware runs iff UseMiddlewares; otherwise => fresh sid and pid, nothing "+
 		"replayed, middleware once, own room only, old id gone; afterwards live events arrive exactly once; non-trivial = a recovery replaying >= 2 packets, or a refused recovery with traffic while away")
 	rapidGuard(t, "C08", c08eCheck)
-	runRapid(t, c08eCheck, tierN(1600, 40000), func(t *rapid.T) {
+	runRapid(t, c08eCheck, tierN(6000, 60000), func(t *rapid.T) {
 		c := genC08eCase(t)
 		f, nt := evalC08e(c)
 		ev.Case(c, nt, c.class())
